@@ -103,7 +103,7 @@ fn item(ctx: &Ctx, i: usize, rep: &mut Report) {
     let mut r = FastRng::new(ctx.sub_seed(&[i as u64, ctx.is_dbg() as u64]));
     let by_eps = i % 3 == 2;
     let mut lc: LossyCounter<u64> = if by_eps {
-        LossyCounter::with_epsilon(*r.pick(&[0.5, 0.3, 0.25, 0.1, 0.07, 0.011, 0.9, 0.001]))
+        LossyCounter::with_epsilon(*r.pick(&[0.5, 0.3, 0.25, 0.2, 0.15, 0.1, 0.07, 0.05, 0.025, 0.011, 0.01, 1.0 / 3.0, 1.0 / 7.0, 0.9, 0.001, 0.45]))
     } else {
         LossyCounter::with_width(*r.pick(&[1usize, 2, 3, 4, 7, 10, 100, 1000]))
     };
